@@ -79,6 +79,7 @@ type vxC14Round struct {
 	Ops    []vxC14Op `json:"ops"`     // one concurrent executor each
 	Hold   bool      `json:"hold"`    // PREPAREs are held back until every executor has started
 	HoldUS int       `json:"hold_us"` // ... plus this many microseconds
+	Drop   bool      `json:"drop,omitempty"` // with Hold: while PREPAREs are unanswered the client closes its pool connections itself (what a DOWN event or RemoveHost does): no error travels with that close, only the connection's context ends
 }
 
 type vxC14Forget struct {
@@ -317,7 +318,9 @@ type vxC14World struct {
 }
 
 func vxC14ConnErr(e string) bool {
-	for _, m := range []string{"EOF", "closed", "connection", "no hosts", "broken pipe", "reset", "context canceled"} {
+	// not "context canceled": a caller whose context lives is told that the connection went away, not that
+	// somebody cancelled (the executor would take that for the caller giving up and try no other host)
+	for _, m := range []string{"EOF", "closed", "connection", "no hosts", "broken pipe", "reset"} {
 		if strings.Contains(e, m) {
 			return true
 		}
@@ -983,6 +986,31 @@ func vxC14Run(c *vxC14Case, k *vstats.Case) error {
 					time.Sleep(20 * time.Microsecond)
 				}
 				time.Sleep(time.Duration(us) * time.Microsecond)
+				if r.Drop && c.Keyspaces == 1 {
+					for i := 0; i < 100; i++ {
+						w.mu.Lock()
+						nh := len(w.held)
+						w.mu.Unlock()
+						if nh > 0 {
+							break
+						}
+						time.Sleep(20 * time.Microsecond)
+					}
+					w.mu.Lock()
+					if w.closeRounds == nil {
+						w.closeRounds = map[int]bool{}
+					}
+					w.closeRounds[ri] = true
+					w.mu.Unlock()
+					// the way a DOWN event or a RemoveHost closes them: the pool goes, and a new one is made
+					for _, h := range s.ring.allHosts() {
+						s.pool.removeHost(h.HostID())
+					}
+					for _, h := range s.ring.allHosts() {
+						s.pool.addHost(h)
+					}
+					time.Sleep(time.Duration(us+100) * time.Microsecond)
+				}
 				if len(cancels) > 0 {
 					// some callers give up while the PREPAREs are unanswered: wait (briefly) until one is held
 					for i := 0; i < 100; i++ {
@@ -1390,6 +1418,7 @@ func vxC14Draw(t *rapid.T) *vxC14Case {
 	nr := rapid.IntRange(1, 4).Draw(t, "rounds")
 	for r := 0; r < nr; r++ {
 		rd := vxC14Round{Hold: rapid.Bool().Draw(t, "hold"), HoldUS: rapid.SampledFrom([]int{0, 50, 200, 1000}).Draw(t, "hold_us")}
+		rd.Drop = rd.Hold && rapid.IntRange(0, 5).Draw(t, "drop") == 0
 		k := rapid.SampledFrom([]int{1, 2, 2, 3, 4, 6, 8, 12, 16}).Draw(t, "executors")
 		focus := rapid.IntRange(0, ns-1).Draw(t, "focus")
 		pick := func() int {
